@@ -123,3 +123,351 @@ theorem scanSt_take_scanLen (q e : Bool) (a : Bytes) :
             · simp only [scanLen, hc, hk, ↓reduceIte, Nat.add_comm 1, List.take_succ_cons, scanSt]; exact h1
             · simp only [scanLen, hc, hk, ↓reduceIte, Nat.add_comm 1, List.drop_succ_cons]; exact h2
 
+theorem scanSt_append (q e : Bool) (a b : Bytes) :
+    scanSt q e (a ++ b) = (scanSt q e a).bind (fun st => scanSt st.1 st.2 b) := by
+  induction a generalizing q e with
+  | nil => simp [scanSt]
+  | cons c a ih =>
+    cases e with
+    | true => simp only [List.cons_append, scanSt]; exact ih _ _
+    | false =>
+      cases q with
+      | false =>
+        simp only [List.cons_append, scanSt]
+        split
+        · exact ih _ _
+        · split
+          · simp
+          · exact ih _ _
+      | true =>
+        simp only [List.cons_append, scanSt]
+        split
+        · exact ih _ _
+        · split
+          · exact ih _ _
+          · exact ih _ _
+
+/-- "escaped" only ever happens inside quotes -/
+theorem scanSt_inv (q e : Bool) (a : Bytes) (q' e' : Bool) (h : scanSt q e a = some (q', e'))
+    (hi : e = true → q = true) : e' = true → q' = true := by
+  induction a generalizing q e with
+  | nil => simp [scanSt] at h; obtain ⟨rfl, rfl⟩ := h; exact hi
+  | cons c a ih =>
+    cases e with
+    | true => simp only [scanSt] at h; exact ih _ _ h (by simp)
+    | false =>
+      cases q with
+      | false =>
+        simp only [scanSt] at h
+        split at h
+        · exact ih _ _ h (by simp)
+        · split at h
+          · simp at h
+          · exact ih _ _ h (by simp)
+      | true =>
+        simp only [scanSt] at h
+        split at h
+        · exact ih _ _ h (by simp)
+        · split at h
+          · exact ih _ _ h (by simp)
+          · exact ih _ _ h (by simp)
+
+theorem scanSt_prefix (q e : Bool) (a b : Bytes) (st : Bool × Bool) (h : scanSt q e (a ++ b) = some st) :
+    ∃ st', scanSt q e a = some st' := by
+  rw [scanSt_append] at h
+  cases h' : scanSt q e a with
+  | none => simp [h'] at h
+  | some s => exact ⟨s, rfl⟩
+
+/-- removing trailing white space from a scanned text that ended outside quotes leaves a text that ends outside quotes -/
+theorem scanSt_strip (a ws : Bytes) (hws : ∀ c ∈ ws, isSpaceC c = true)
+    (h : scanSt false false (a ++ ws) = some (false, false)) : scanSt false false a = some (false, false) := by
+  induction ws generalizing a with
+  | nil => simpa using h
+  | cons w ws ih =>
+    have h1 : scanSt false false ((a ++ [w]) ++ ws) = some (false, false) := by simpa using h
+    have h2 := ih (a ++ [w]) (fun c hc => hws c (List.mem_cons_of_mem _ hc)) h1
+    rw [scanSt_append] at h2
+    have hw := hws w (List.mem_cons_self)
+    have hw34 : w ≠ 34 := by intro hh; subst hh; revert hw; decide
+    have hw44 : w ≠ 44 := by intro hh; subst hh; revert hw; decide
+    have hw92 : w ≠ 92 := by intro hh; subst hh; revert hw; decide
+    cases h' : scanSt false false a with
+    | none => simp [h'] at h2
+    | some s =>
+      obtain ⟨q', e'⟩ := s
+      have hinv := scanSt_inv false false a q' e' h' (by simp)
+      simp only [h', Option.bind_some] at h2
+      cases e' with
+      | true =>
+        have := hinv rfl; subst this
+        simp [scanSt] at h2
+      | false =>
+        cases q' with
+        | false => rfl
+        | true => simp [scanSt, hw34, hw92] at h2
+
+/-! ### trimming -/
+
+theorem rtrimLen_le (l : Bytes) : rtrimLen l ≤ l.length := by
+  induction l with
+  | nil => simp [rtrimLen]
+  | cons c r ih => simp only [rtrimLen, List.length_cons]; split <;> omega
+
+theorem rtrimLen_cons_of_ne_zero (c : UInt8) (r : Bytes) (h : rtrimLen r ≠ 0) : rtrimLen (c :: r) = rtrimLen r + 1 := by
+  simp [rtrimLen, h]
+
+theorem rtrimLen_of_last (l : Bytes) (hne : l ≠ []) (h : isSpaceC (l.getLast hne) = false) : rtrimLen l = l.length := by
+  induction l with
+  | nil => exact absurd rfl hne
+  | cons c r ih =>
+    cases r with
+    | nil => simp only [List.getLast_singleton] at h; simp [rtrimLen, h]
+    | cons d r' =>
+      have ih' := ih (by simp) (by simpa using h)
+      rw [rtrimLen_cons_of_ne_zero c _ (by rw [ih']; simp), ih']
+      simp
+
+/-- the kept part plus only white space -/
+theorem rtrimLen_split (l : Bytes) : ∀ c ∈ l.drop (rtrimLen l), isSpaceC c = true := by
+  induction l with
+  | nil => simp
+  | cons c r ih =>
+    simp only [rtrimLen]
+    split
+    · rename_i h
+      intro x hx
+      simp only [List.drop_zero, List.mem_cons] at hx
+      rcases hx with rfl | hx
+      · exact h.2
+      · have := ih x; rw [h.1] at this; exact this (by simpa using hx)
+    · intro x hx
+      simp only [List.drop_succ_cons] at hx
+      exact ih x hx
+
+theorem rtrimLen_take (l : Bytes) : rtrimLen (l.take (rtrimLen l)) = rtrimLen l := by
+  induction l with
+  | nil => simp [rtrimLen]
+  | cons c r ih =>
+    simp only [rtrimLen]
+    split
+    · simp [rtrimLen]
+    · rename_i h
+      simp only [List.take_succ_cons, rtrimLen, ih]
+      rw [if_neg h]
+
+/-- what `strListGetItem` can return as an item: non-empty, does not start with a skipped octet, does not end in white space,
+no comma outside quotes -/
+structure GoodItem (a : Bytes) : Prop where
+  ne : a ≠ []
+  head : ∀ c, a.head? = some c → isLeadDelim c = false
+  trail : rtrimLen a = a.length
+  scan : ∃ st, scanSt false false a = some st
+
+/-- the item ends outside quotes (so that a following comma is a separator) -/
+def Closed (a : Bytes) : Prop := scanSt false false a = some (false, false)
+
+theorem dropWhile_of_head (a : Bytes) (h : ∀ c, a.head? = some c → isLeadDelim c = false) : a.dropWhile isLeadDelim = a := by
+  cases a with
+  | nil => rfl
+  | cons c r => simp [List.dropWhile_cons, h c rfl]
+
+theorem getItem_good_comma (a r : Bytes) (hg : GoodItem a) (hc : Closed a) :
+    getItem (a ++ 44 :: r) = some (a ++ 44 :: r, a.length, 44 :: r) := by
+  have hne := hg.ne
+  have hd : (a ++ 44 :: r).dropWhile isLeadDelim = a ++ 44 :: r := by
+    apply dropWhile_of_head
+    intro c h
+    cases a with
+    | nil => exact absurd rfl hne
+    | cons x xs => exact hg.head c (by simpa using h)
+  have hn : scanLen false false (a ++ 44 :: r) = a.length := by
+    rw [scanLen_append false false a (44 :: r) false false hc, scanLen_comma]; rfl
+  unfold getItem
+  simp only [hd, hn, List.take_left', hg.trail, List.drop_left']
+  have : a.length ≠ 0 := by
+    intro h; exact hne (List.length_eq_zero_iff.mp h)
+  simp [this]
+
+theorem getItem_good_end (a : Bytes) (hg : GoodItem a) : getItem a = some (a, a.length, []) := by
+  have hne := hg.ne
+  have hd : a.dropWhile isLeadDelim = a := dropWhile_of_head a hg.head
+  obtain ⟨st, hst⟩ := hg.scan
+  have hn : scanLen false false a = a.length := by
+    have := scanLen_append false false a [] st.1 st.2 hst
+    simpa [scanLen_nil] using this
+  unfold getItem
+  simp only [hd, hn, List.take_length, hg.trail, List.drop_length]
+  have : a.length ≠ 0 := by
+    intro h; exact hne (List.length_eq_zero_iff.mp h)
+  simp [this]
+
+theorem getItem_skip (d : UInt8) (r : Bytes) (h : isLeadDelim d = true) : getItem (d :: r) = getItem r := by
+  unfold getItem
+  simp [List.dropWhile_cons, h]
+
+theorem getItem_nil : getItem [] = none := by
+  simp [getItem, scanLen_nil, rtrimLen]
+
+theorem itemsAux_skip (f : Nat) (d : UInt8) (r : Bytes) (h : isLeadDelim d = true) :
+    itemsAux f (d :: r) = itemsAux f r := by
+  cases f with
+  | zero => rfl
+  | succ f => simp only [itemsAux, getItem_skip d r h]
+
+/-- `", "`-joined list -/
+def joinItems : List Bytes → Bytes
+  | [] => []
+  | [a] => a
+  | a :: b :: r => a ++ 44 :: 32 :: joinItems (b :: r)
+
+/-- the (pointer, length) pairs the iteration yields on a joined list -/
+def suffixItems : List Bytes → List (Bytes × Nat)
+  | [] => []
+  | a :: r => (joinItems (a :: r), a.length) :: suffixItems r
+
+theorem joinItems_length_ge (a : Bytes) (r : List Bytes) : a.length ≤ (joinItems (a :: r)).length := by
+  cases r with
+  | nil => simp [joinItems]
+  | cons b r => simp [joinItems]
+
+/-- all elements but the last end outside quotes -/
+def InitClosed : List Bytes → Prop
+  | [] => True
+  | [_] => True
+  | a :: b :: r => Closed a ∧ InitClosed (b :: r)
+
+theorem itemsAux_join (es : List Bytes) (hg : ∀ e ∈ es, GoodItem e) (hc : InitClosed es) (f : Nat)
+    (hf : (joinItems es).length + 1 ≤ f) : itemsAux f (joinItems es) = suffixItems es := by
+  induction es generalizing f with
+  | nil =>
+    cases f with
+    | zero => rfl
+    | succ f => simp [joinItems, itemsAux, getItem_nil, suffixItems]
+  | cons a r ih =>
+    cases f with
+    | zero => omega
+    | succ f =>
+      cases r with
+      | nil =>
+        have ha := hg a (List.mem_cons_self)
+        simp only [joinItems, itemsAux, getItem_good_end a ha, suffixItems]
+        cases f with
+        | zero => rfl
+        | succ f => simp [itemsAux, getItem_nil]
+      | cons b r' =>
+        have ha := hg a (List.mem_cons_self)
+        have hcl : Closed a := hc.1
+        simp only [joinItems, itemsAux, getItem_good_comma a _ ha hcl, suffixItems]
+        congr 1
+        rw [itemsAux_skip f 44 _ (by decide), itemsAux_skip f 32 _ (by decide)]
+        have := ih (fun e he => hg e (List.mem_cons_of_mem _ he)) hc.2 f (by
+          simp only [joinItems, List.length_append, List.length_cons] at hf
+          have hne := ha.ne
+          have : a.length ≠ 0 := fun h => hne (List.length_eq_zero_iff.mp h)
+          omega)
+        rw [this]; rfl
+
+theorem items_join (es : List Bytes) (hg : ∀ e ∈ es, GoodItem e) (hc : InitClosed es) :
+    items (joinItems es) = suffixItems es :=
+  itemsAux_join es hg hc _ (Nat.le_refl _)
+
+theorem dropWhile_head (p : UInt8 → Bool) (l : Bytes) : ∀ c, (l.dropWhile p).head? = some c → p c = false := by
+  induction l with
+  | nil => simp
+  | cons x xs ih =>
+    intro c h
+    by_cases hx : p x = true
+    · simp only [List.dropWhile_cons, hx, ↓reduceIte] at h; exact ih c h
+    · simp only [List.dropWhile_cons, hx, Bool.false_eq_true, ↓reduceIte, List.head?_cons, Option.some.injEq] at h
+      subst h; simpa using hx
+
+theorem dropWhile_length_le (p : UInt8 → Bool) (l : Bytes) : (l.dropWhile p).length ≤ l.length := by
+  induction l with
+  | nil => simp
+  | cons x xs ih =>
+    simp only [List.dropWhile_cons]
+    split
+    · simp; omega
+    · simp
+
+/-- every successful call of the splitter yields a good item; the call consumed at least one octet; what is left is the end
+of the value or starts with the comma that closed the item -/
+theorem getItem_spec (pos item pos' : Bytes) (ilen : Nat) (h : getItem pos = some (item, ilen, pos')) :
+    GoodItem (item.take ilen) ∧ ilen ≤ item.length ∧ ilen ≠ 0 ∧ pos'.length < pos.length ∧
+    (pos' = [] ∨ (Closed (item.take ilen) ∧ ∃ r, pos' = 44 :: r)) := by
+  unfold getItem at h
+  simp only at h
+  split at h
+  · exact absurd h (by simp)
+  · rename_i hil
+    simp only [Option.some.injEq, Prod.mk.injEq] at h
+    obtain ⟨h1, h2, h3⟩ := h
+    subst h1
+    generalize hn : scanLen false false (List.dropWhile isLeadDelim pos) = n at *
+    generalize hitem : List.dropWhile isLeadDelim pos = item at *
+    have hnle : n ≤ item.length := by rw [← hn]; exact scanLen_le _ _ _
+    have hile : ilen ≤ n := by
+      rw [← h2]; have := rtrimLen_le (item.take n); simp only [List.length_take] at this; omega
+    have htt : (item.take n).take ilen = item.take ilen := by
+      rw [List.take_take]; congr 1; omega
+    have hlen : (item.take ilen).length = ilen := by simp; omega
+    have hil' : ilen ≠ 0 := by rw [← h2]; exact hil
+    obtain ⟨q', e', hs1, hs2⟩ := scanSt_take_scanLen false false item
+    rw [hn] at hs1 hs2
+    have hsplit : item.take n = item.take ilen ++ (item.take n).drop ilen := by
+      rw [← htt]; exact (List.take_append_drop ilen (item.take n)).symm
+    have hws : ∀ c ∈ (item.take n).drop ilen, isSpaceC c = true := by
+      rw [← h2]; exact rtrimLen_split (item.take n)
+    refine ⟨⟨?_, ?_, ?_, ?_⟩, by omega, hil', ?_, ?_⟩
+    · intro hnil; rw [hnil] at hlen; simp at hlen; exact hil' hlen.symm
+    · intro c hc
+      rw [List.head?_take] at hc
+      simp only [hil', ↓reduceIte] at hc
+      rw [← hitem] at hc
+      exact dropWhile_head _ _ c hc
+    · rw [hlen, ← htt, ← h2, rtrimLen_take]
+    · rw [hsplit] at hs1
+      exact scanSt_prefix _ _ _ _ _ hs1
+    · rw [← h3, List.length_drop]
+      have := dropWhile_length_le isLeadDelim pos
+      rw [hitem] at this
+      omega
+    · rcases hs2 with hs2 | ⟨rfl, rfl, r, hr⟩
+      · left; rw [← h3]; exact hs2
+      · right
+        refine ⟨?_, r, by rw [← h3]; exact hr⟩
+        rw [hsplit] at hs1
+        exact scanSt_strip _ _ hws hs1
+
+/-- the texts of the items -/
+def itemTexts (its : List (Bytes × Nat)) : List Bytes := its.map (fun it => it.1.take it.2)
+
+theorem itemsAux_spec (f : Nat) (pos : Bytes) :
+    (∀ e ∈ itemTexts (itemsAux f pos), GoodItem e) ∧ InitClosed (itemTexts (itemsAux f pos)) ∧
+    (∀ it ∈ itemsAux f pos, it.2 ≤ it.1.length ∧ it.2 ≠ 0) := by
+  induction f generalizing pos with
+  | zero => simp [itemsAux, itemTexts, InitClosed]
+  | succ f ih =>
+    simp only [itemsAux]
+    cases hgi : getItem pos with
+    | none => simp [itemTexts, InitClosed]
+    | some r =>
+      obtain ⟨item, ilen, pos'⟩ := r
+      obtain ⟨hg, hle, hne, _, hrest⟩ := getItem_spec pos item pos' ilen hgi
+      obtain ⟨ih1, ih2, ih3⟩ := ih pos'
+      simp only [itemTexts, List.map_cons, List.mem_cons, forall_eq_or_imp] at *
+      refine ⟨⟨hg, ih1⟩, ?_, ⟨⟨hle, hne⟩, ih3⟩⟩
+      cases hrest with
+      | inl hnil =>
+        subst hnil
+        cases f with
+        | zero => simp [itemsAux, InitClosed]
+        | succ f => simp [itemsAux, getItem_nil, InitClosed]
+      | inr hcl =>
+        cases hm : List.map (fun it => List.take it.2 it.1) (itemsAux f pos') with
+        | nil => simp [InitClosed]
+        | cons b r => rw [hm] at ih2; exact ⟨hcl.1, ih2⟩
+
+
+end SquidModel.Cc
